@@ -105,9 +105,10 @@ PROPS["C05"] = {
     "rule": ("unit = one build-then-delete history, or one recovered crash image. Non-trivial: the history freed at least one indirect block or contained a shrinker-interrupting stop; the crash image contains a half-freed inode. "
              "distinct = FNV hash of the history resp. (program, crash point, variant)."),
     "assumptions": CRASH_ASSUMPTIONS,
-    "required_classes": ["history_that_freed_indirect_blocks", "crash_images_with_half_freed_inode", "recovered_images_with_followup_check", "removed_file_with_about_journal_size_blocks"],
+    "required_classes": ["history_that_freed_indirect_blocks", "crash_images_with_half_freed_inode", "recovered_images_with_followup_check", "removed_file_with_about_journal_size_blocks", "full_disk_history_emptied_and_counted"],
     "units": [
         {"test": "^TestC05Seq$", "quick": {"checks": 40, "shards": 8}, "thorough": {"checks": 600, "shards": 12, "steps": 50}},
+        {"test": "^TestC05Full$", "quick": {"checks": 40, "shards": 4, "steps": 40}, "thorough": {"checks": 600, "shards": 8, "steps": 60}},
         {"test": "^TestC05Crash$", "quick": {"checks": 4, "shards": 2, "procs": 4, "timeout": 600},
          "thorough": {"checks": 50, "shards": 4, "procs": 4, "timeout": 7200}},
     ],
@@ -226,6 +227,7 @@ PROPS["C10"] = {
     "required_classes": ["quiescent_points_compared_with_recovery_from_image", "clean_restarts_compared", "points_after_an_abort_of_a_modified_transaction", "points_with_more_objects_than_the_inode_cache"],
     "units": [
         {"test": "^TestC10Equiv$", "quick": {"checks": 50, "shards": 8, "steps": 40}, "thorough": {"checks": 800, "shards": 12, "steps": 80}},
+        {"test": "^TestC10Full$", "quick": {"checks": 40, "shards": 4, "steps": 40}, "thorough": {"checks": 600, "shards": 8, "steps": 60}},
         {"test": "^TestC10Codec$", "quick": {"checks": 3000}, "thorough": {"checks": 200000, "shards": 4}},
     ],
 }
